@@ -46,7 +46,7 @@ Qed.
 Theorem C20_fixed_scale_classes : forallb fixed_ok fixed_models = true /\ length fixed_models = 24%nat.
 Proof. exact fixed_models_ok. Qed.
 
-(* ---- the connection-scheme axis.  Every convolutional family admits connections='unique' at every scale ... *)
+(* ---- the connection-scheme axis.  Every convolutional family supports connections='unique' at every scale ... *)
 Theorem C20_unique_scheme_conv_families : forall k, 1 <= k ->
   unique_all (ClgnMnist_layers k) /\ unique_all (CNN_layers k) /\ unique_all (ClgnCifar10Tiny_layers k)
   /\ unique_all (ClgnCifar10_nbits1_layers k) /\ unique_all (ClgnCifar10_nbits2_layers k) /\ unique_all (ClgnCifar10_nbits3_layers k)
@@ -63,7 +63,7 @@ Proof.
 Qed.
 (* ... except ClgnCifar10Mini, whose last dense layer (128 k -> 60 k) is narrower than half its input: the full statement
    "every class x every scale x every connection scheme constructs" is REFUTED for it at every scale (known finding F51);
-   the rest of the class is admissible *)
+   the rest of the class is allowed *)
 Theorem C20_unique_scheme_Mini_refuted : forall k, 1 <= k -> ~ unique_all (ClgnCifar10Mini_layers k).
 Proof. exact ClgnCifar10Mini_unique_refuted. Qed.
 Theorem C20_unique_scheme_Mini_partial : forall k, 1 <= k ->
@@ -72,7 +72,7 @@ Theorem C20_unique_scheme_Mini_partial : forall k, 1 <= k ->
   | _ => False
   end.
 Proof. exact ClgnCifar10Mini_unique_others. Qed.
-(* the dense family admits 'unique' exactly between half the input width and the number of input pairs (neurons = 10 k, resp. 4 k) *)
+(* the dense family supports 'unique' exactly between half the input width and the number of input pairs (neurons = 10 k, resp. 4 k) *)
 Theorem C20_unique_scheme_dense_family : forall k, 1 <= k ->
   (unique_all (DlgnMnist_layers k) <-> 40 <= k <= 30693)
   /\ (unique_all (DlgnCifar10_2_4_layers k) <-> 308 <= k <= 1887129)
@@ -81,7 +81,7 @@ Theorem C20_unique_scheme_dense_family : forall k, 1 <= k ->
 Proof.
   intros k Hk. exact (conj (DlgnMnist_unique k Hk) (conj (DlgnCifar10_2_4_unique k Hk) (conj (DlgnCifar10_5_5_unique k Hk) (Dlgn_generic_unique k Hk)))).
 Qed.
-(* the 24 fixed-scale classes at their defining scale: all admit 'unique' but the four ClgnCifar10Mini sizes *)
+(* the 24 fixed-scale classes at their defining scale: all support 'unique' but the four ClgnCifar10Mini sizes *)
 Theorem C20_unique_scheme_fixed_classes :
   fixed_unique = [true; true; true; true; true; true; true; true; true; true; true; true; true;
                   false; false; false; false; true; true; true; true; true; true; true].
